@@ -549,7 +549,9 @@ RATIOS_ARB = [(44100, 48000), (48000, 44100), (96000, 44100), (44100, 96000), (3
 RATIOS_RATIONAL = RATIOS_SMALL_INT + RATIOS_HALF + RATIOS_POST + RATIOS_ARB
 # irrational / near-rational ratios: interpolated coefficients (orders 1-3), rounded clock
 RATIOS_IRRATIONAL = [(3.14159, 1), (1, 3.14159), (2.71828, 1), (1, 2.71828), (1.41421356, 1), (1, 1.41421356), (1.0001, 1), (1, 1.0001),
-                     (65537, 44100), (44100, 65537), (48000, 44101), (10.3, 1), (1, 20.7), (37.1, 1)]
+                     (65537, 44100), (44100, 65537), (48000, 44101), (10.3, 1), (1, 20.7), (37.1, 1),
+                     # a fraction of one unit of the 32.32 clock away from the ratios at which the planner rounds / snaps
+                     (3.0 * (1 - 3.1e-11), 1), (1.5 * (1 - 1.0e-11), 1), (1, 3.0 * (1 - 3.1e-11)), (6.0 * (1 - 2e-11), 1), (2.0 * (1 + 3.1e-11), 1)]
 # (recipe, quality flags): LQ MQ 16 20(HQ) 24 28(VHQ) 32, LSR presets, steep filter, roll-off classes
 RECIPES = [(1, 0), (2, 0), (3, 0), (4, 0), (5, 0), (6, 0), (7, 0), (8, 0), (9, 0), (10, 0), (4 | 0x40, 0), (6 | 0x40, 0), (3 | 0x40, 0),
            (4, 1), (4, 2), (6, 1), (6, 2), (3, 2), (7, 2), (5, 1)]
@@ -715,13 +717,14 @@ COVER_RATIOS = (_coprime_pairs(12) +
                  (44100, 192000), (192000, 44100), (11025, 96000), (48000, 8000), (8000, 48000)])
 COVER_IRRATIONAL = [(3.14159, 1), (1, 3.14159), (2.71828, 1), (1, 2.71828), (1.41421356, 1), (1, 1.41421356), (1.0001, 1), (1, 1.0001),
                     (65537, 44100), (44100, 65537), (48000, 44101), (10.3, 1), (1, 20.7), (37.1, 1), (1.7320508, 1), (1.9099, 1), (1.5557, 1),
-                    (1.8375001, 1), (1, 5.0001), (1, 9.87), (1, 41.3), (6.99, 1), (3.3333, 1), (1, 1.2599), (5.00001, 2)]
+                    (1.8375001, 1), (1, 5.0001), (1, 9.87), (1, 41.3), (6.99, 1), (3.3333, 1), (1, 1.2599), (5.00001, 2),
+                    (3.0 * (1 - 3.1e-11), 1), (1.5 * (1 - 1.0e-11), 1), (1, 3.0 * (1 - 3.1e-11)), (6.0 * (1 - 2e-11), 1), (2.0 * (1 + 3.1e-11), 1)]
 COVER_RECIPES = [(1, 0), (2, 0), (3, 0), (4, 0), (5, 0), (6, 0), (7, 0), (8, 0), (9, 0), (10, 0), (4 | 0x40, 0), (6 | 0x40, 0), (3 | 0x40, 0), (5 | 0x40, 0)]
 ANCHOR_RATIOS = [(1, 2), (2, 1), (1, 4), (4, 1), (3, 1), (1, 3), (3, 2), (2, 3), (4, 3), (3, 4), (1, 5), (6, 1), (12, 1), (8, 1), (16, 1), (1, 8), (1, 16),
                  (5, 3), (7, 4), (5, 2), (2, 5), (5, 1), (2, 9), (1, 12), (3, 16), (10, 1)]
 ANCHOR_RECIPES = [1, 2, 4, 4 | 0x40, 6]
 ANCHOR_SB_GT1 = [(2, 1), (4, 1), (4, 3), (5, 3), (8, 1)]
-ANCHOR_IRRATIONAL = [(3.14159, 1), (1, 3.14159), (1.7320508, 1), (1, 9.87), (6.99, 1)]
+ANCHOR_IRRATIONAL = [(3.14159, 1), (1, 3.14159), (1.7320508, 1), (1, 9.87), (6.99, 1), (3.0 * (1 - 3.1e-11), 1), (1.5 * (1 - 1.0e-11), 1)]
 KNOBS_SPECTRAL = ["base", "ph0", "ph25", "ph75", "ph100", "sb<1", "sb>1", "sb>1.1", "pb", "roll", "prec", "gain"]
 _PHASE_BITS = {0: 0x30, 25: 0x10, 100: 0x20}
 
